@@ -16,7 +16,7 @@ class S(vlib.Spec):
     corr_codes = {1, 8, 9}
     code_names = {
         1: "model and implementation disagree: accepts says accept and thriftgo did not (exit 0 and files), or the other way round",
-        8: "the edited program does not violate the intended rule as Idl/Rules.v defines it (mutation engine and specification disagree)",
+        8: "the edited program does not violate the intended rule as Idl/Rules.v defines it, or a value-kind edit of any shape is no defect for violates_deep of Idl/RulesKinds.v (mutation engine and specification disagree)",
         9: "model out of fuel",
         2: "a rule-breaking tree / bad command line ended in exit status 0",
         3: "a rule-breaking tree / bad command line left a file under the output directory",
@@ -35,7 +35,7 @@ class S(vlib.Spec):
         "hand-written models coq/Idl/Check.v (semantic/checker.go statement by statement, after the repairs proposed_fixes/C04-1..3) and coq/Idl/Accept.v "
         "(CircleDetect, the constant-kind decisions of generator/golang/resolver.go, the set of files a Go scope is built for, the command-line stage); "
         "coq/Idl/Resolve.v is the model of property C05",
-        "specification coq/Idl/Rules.v (rule catalogue, violates) over the symbol-table notions of coq/Idl/ResolveSpec.v (C05)",
+        "specification coq/Idl/Rules.v (rule catalogue, violates) and coq/Idl/RulesKinds.v (violates_deep: value kinds for every shape of the declared type) over the symbol-table notions of coq/Idl/ResolveSpec.v and the executable denotation of coq/Idl/ResolvableSpec.v (C05)",
         "harness/astdump + harness/idlast (real parser.Thrift -> Idl.Ast term), harness/idlgen (base programs, renderer), harness/idlmut (catalogue edits), "
         "harness/cmd/c04 (runs the real thriftgo binary: bash ulimit -v, time limit, process group kill; projects exit status / files / output), lib/vlib.py",
         "the operating system's process interface (exit status, RLIMIT_AS, signals); a Go trace is recognised by the substrings panic / fatal error / goroutine",
